@@ -26,7 +26,7 @@ REGISTERED = ['_arctan2', 'a_to_cell', 'b_to_cell', 'b_to_epsilon', 'b_to_epsilo
 
 
 def units(tier):
-    return [(i, 500) for i in range(16)] if tier == "quick" else [(i, 12000) for i in range(16)]
+    return [(i, 350) for i in range(16)] if tier == "quick" else [(i, 8000) for i in range(16)]
 
 
 def strategy(tier, unit):
@@ -153,6 +153,16 @@ def check(case, ctx):
     r = _both(ctx, "u_to_rod", lambda: T.u_to_rod(U), lambda: L.u_to_rod(U))
     if r:
         _cmp(ctx, "u_to_rod", r[0], r[1])
+    # inputs the validators reject: tools and laue must behave alike (both raise the same error type while the switch is
+    # on, both go ahead while it is off) - the switch is package-wide
+    bad_e = (-0.5 - abs(a1), i2, i3)
+    _both(ctx, "euler_to_u(out-of-range angle)", lambda: T.euler_to_u(*bad_e), lambda: L.euler_to_u(*bad_e))
+    Ubad = np.round(np.asarray(U, float), 2) + np.array([[0.0, 0.03, 0.0], [0.0, 0.0, 0.0], [0.0, 0.0, 0.0]])
+    for fn in ("u_to_ubi",):
+        r_ = _both(ctx, fn + "(not a rotation)", lambda: getattr(T, fn)(Ubad, cell), lambda: getattr(L, fn)(Ubad, cell))
+        if r_:
+            _cmp(ctx, fn, r_[0], r_[1], what="(invalid U, checks off)", floor=0.0)
+    r_ = _both(ctx, "u_to_euler(not a rotation)", lambda: T.u_to_euler(Ubad), lambda: L.u_to_euler(Ubad))
     y, x = case["atan"]
     r = _both(ctx, "_arctan2", lambda: T._arctan2(y, x), lambda: L._arctan2(y, x))
     if r:
@@ -242,6 +252,24 @@ def check(case, ctx):
         a = np.asarray(T.genhkl_base(B.cell, g_.syscond, B.smin, B.smax, g_.crystal_system, g_.Laue, g_.cell_choice, True), float)
         b = np.asarray(L.genhkl_base(B.cell, g_.syscond, B.smin, B.smax, g_.crystal_system, g_.Laue, g_.cell_choice, True), float)
         _cmp_refl(ctx, "genhkl_base", a, b)
+        # every documented value of the optional output_stl argument (None, False, True), also by keyword
+        for ostl in (None, False, 0, 1):
+            a = np.asarray(T.genhkl_base(B.cell, g_.syscond, B.smin, B.smax, g_.crystal_system, g_.Laue, g_.cell_choice, output_stl=ostl), float)
+            b = np.asarray(L.genhkl_base(B.cell, g_.syscond, B.smin, B.smax, g_.crystal_system, g_.Laue, g_.cell_choice, output_stl=ostl), float)
+            if a.shape != b.shape or not np.array_equal(a, b):
+                ctx.fail("differs/genhkl_base", "genhkl_base(output_stl=%r): tools returns shape %r, laue %r (or different values)" % (ostl, a.shape, b.shape))
+            a = np.asarray(T.genhkl(B.cell, g_.syscond, 0.0, min(B.smax, 0.2), g_.crystal_system, output_stl=ostl), float)
+            b = np.asarray(L.genhkl(B.cell, g_.syscond, 0.0, min(B.smax, 0.2), g_.crystal_system, output_stl=ostl), float)
+            if a.shape != b.shape or not np.array_equal(a, b):
+                ctx.fail("differs/genhkl", "genhkl(output_stl=%r): tools returns shape %r, laue %r (or different values)" % (ostl, a.shape, b.shape))
+        for fn in ("genhkl_unique", "genhkl_all"):
+            for ostl in (False, True):
+                np.random.seed(hk["npseed"])
+                a = np.asarray(getattr(T, fn)(B.cell, B.smin, B.smax, output_stl=ostl, **B.kw), float)
+                np.random.seed(hk["npseed"])
+                b = np.asarray(getattr(L, fn)(B.cell, B.smin, B.smax, output_stl=ostl, **B.kw), float)
+                if a.shape != b.shape:
+                    ctx.fail("differs/" + fn, "%s(output_stl=%r): tools returns shape %r, laue %r" % (fn, ostl, a.shape, b.shape))
         # generated condition vector through the scan as well (only lattice-type slots + a zonal one, any Laue class)
         a = np.asarray(T.genhkl_base(B.cell, sc, B.smin, B.smax, g_.crystal_system, g_.Laue, g_.cell_choice, True), float)
         b = np.asarray(L.genhkl_base(B.cell, sc, B.smin, B.smax, g_.crystal_system, g_.Laue, g_.cell_choice, True), float)
